@@ -745,3 +745,41 @@ Example x_class_blind :
   map cls h' = [4; 5; 6; 7; 8; 9; 10] /\
   instantiate h' [] 0 = instantiate x_heap [] 0 /\ load h' 0 = load x_heap 0.
 Proof. split; [reflexivity|]. apply class_blind. reflexivity. Qed.
+
+(* ---- distinct parameter names: decidable form, non-vacuity; the order of copy and __post_init__ ---- *)
+Lemma nodup_strb_spec l : nodup_strb l = true -> NoDup l.
+Proof.
+  induction l as [|k l IH]; simpl; intros H; constructor.
+  - apply andb_true_iff in H. destruct H as [H _]. apply negb_true_iff in H.
+    intros Hin. assert (X : existsb (str_eqb k) l = true).
+    { apply existsb_exists. exists k. split; auto. apply str_eqb_eq. reflexivity. }
+    congruence.
+  - apply IH. apply andb_true_iff in H. tauto.
+Qed.
+
+Lemma fields_nodupb_sound h : fields_nodupb h = true -> fields_nodup h.
+Proof.
+  unfold fields_nodupb, fields_nodup. rewrite forallb_forall. intros H n nd En.
+  apply nodup_strb_spec. apply H. eapply nth_error_In; eauto.
+Qed.
+
+Example x_fields_nodup : fields_nodup x_heap.
+Proof. apply fields_nodupb_sound. vm_compute. reflexivity. Qed.
+
+(* __post_init__ before the attribute copy: the call of the task's object sees none of its two
+   parameters - the conclusion of post_init_once_after_fields fails for this variant          *)
+Theorem post_first_refuted : exists h root r n,
+  fields_nodup h /\ instantiate_post_first h [] root = Some r /\
+  In (PostInit n []) (r_log r) /\ fields (node_at h n) <> [] /\
+  ~ In (PostInit n (map fst (fields (node_at h n)))) (r_log r).
+Proof.
+  exists x_heap, 0. eexists. exists 0. split; [exact x_fields_nodup|].
+  split; [vm_compute; reflexivity|]. split; [simpl; auto 10|]. split; [discriminate|].
+  simpl. intros H. repeat (destruct H as [H|H]; [discriminate|]). exact H.
+Qed.
+
+(* ... while the objects end up wired the same way (the copy still happens): the two variants differ in
+   the log only                                                                                 *)
+Example post_first_same_objects :
+  option_map r_objects (instantiate_post_first x_heap [] 0) = option_map r_objects (instantiate x_heap [] 0).
+Proof. vm_compute. reflexivity. Qed.
